@@ -395,11 +395,11 @@ def run(ctx):
                        'extra pair checkers exercised: BiTargetCheckBench (always on the last dimension: isValid() overrides the constructor argument) and BiTargetCheckCode',
                        'ties: a case is excluded when two candidate distances differ by less than the perturbation distmax*n*1e-9 allows, when a sample sits on the radius or on a sector boundary after an inexact transform, or (ball path / KNN) when equidistant samples straddle the cut',
                        'KNN: Manhattan instance replayed exactly by the model (integer/dyadic coordinates make binary64 sums exact); Euclidean instance compared with exhaustive search on squared distances (reported distances within 1e-12 of the square root)',
-                       'the ball tree is built through the (data**, n, nfeatures) constructor: the VectorVectorDouble constructor frees n_features rows of a copy that has n_samples rows']
+                       'the ball tree is built through the (data**, n, nfeatures) constructor']
     ctx.cov['trusted_base'] += ['checks/C06.py: tie filters, high-precision angular sector check (math.atan2), exhaustive-search comparison of KNN results',
                                 'harness/C06.cpp harvests rotation matrix / general-nsect sector / eligible list of the ball path from the implementation itself']
     ctx.notes += ['_moving: the test "nsel < nmini" after _movingSectorNsmax is dead code (nsel is passed by value and never recounted): C06_nmini proves that exit code unreachable; the neighbourhood is therefore NOT refused when the sector quota leaves fewer than nmini samples',
-                  'theorem C06_knn is proved without its ordering clause (C06_knn_partial); the ordering clause is refuted for the model (C06_knn_sorted_refuted) and the witness replays on the implementation (knn:result-not-sorted)',
+                  'C06_knn (k nearest, true distances, increasing order) is proved for the repaired simultaneous_sort (pivot_idx + 2 < size); the former witness of knn:result-not-sorted is kept in corpus/C06.sx and as Example C06_knn_sort_regression',
                   'theorem C06_ball_moving holds only for the degenerate eligible list; C06_ball_moving_refuted gives the model witness of the ballsearch:* findings']
 
 def moving_site(c, impl, spec, info):
